@@ -187,6 +187,36 @@ fn case<S: Shape>(r: &mut Rng, acc: &mut Acc, index: u64) {
     if tl.digest() != digest0 {
         acc.violation("c09:digest", "Debug digest of the timeline changed across evaluations".to_string(), case("state digest unchanged by evaluation", 0.0));
     }
+    // evaluations of an *unrelated* timeline in between (same keyframe positions and timing, hence the
+    // same segment fractions, but different custom easings and values) must not leak into this one
+    {
+        let other_specs: Vec<TlSpec> = specs
+            .iter()
+            .map(|sp| {
+                let mut o = sp.clone();
+                let shift = |e: &Eas| match e {
+                    Eas::Rec(id) => Eas::Rec((id + 3) % 10),
+                    Eas::Builtin(i) => Eas::Rec((*i as u32) % 10),
+                };
+                o.default_easing = o.default_easing.as_ref().map(shift);
+                for k in o.kfs.iter_mut() {
+                    k.easing = k.easing.as_ref().map(shift);
+                    for v in k.vals.iter_mut() {
+                        *v = v.map(|x| (x * 0.5).round());
+                    }
+                }
+                o
+            })
+            .collect();
+        let other = build::<S>(&other_specs, merged);
+        for ti in 0..times.len() {
+            let mut z = S::default();
+            other.update(&mut z, times[ti]);
+            let mut x = S::default();
+            tl.update(&mut x, times[ti]);
+            cmp(acc, &x, ti, "evaluated right after an unrelated timeline with different custom easings at the same time", "leak-from-other-timeline");
+        }
+    }
     // start_with on a clone must not reach the original (no shared state between clones)
     {
         let mut c = tl.clone2();
